@@ -7,6 +7,7 @@ import Gonuts.Model.SpecDriver
 import Gonuts.Model.WireDriver
 import Gonuts.Model.WalletDriver
 import Gonuts.Model.MintDriver
+import Gonuts.Model.WalletBooksDriver
 /-!
   Line-protocol driver.  Reads one S-expression per line `(cmd arg…)`, answers one line.
   Stateless commands are dispatched by name; stateful sessions (mint model) live in `St`.
@@ -17,6 +18,7 @@ open Gonuts Gonuts.Model
 structure St where
   mint : Model.Mint.CSess := {}
   wire : Model.WireDriver.WSt := {}
+  books : Model.WalletBooksDriver.BSt := {}
 
 def u64? (s : Sexp) : Option UInt64 := do
   let n ← s.asNat?
@@ -60,6 +62,10 @@ def step (st : St) (line : String) : St × String :=
     else if cmd.startsWith "wire." then
       match Model.WireDriver.handleSt st.wire cmd args with
       | some (w', out) => ({ st with wire := w' }, out.render)
+      | none => (st, "(bad-op)")
+    else if cmd.startsWith "books." then
+      match Model.WalletBooksDriver.handleSt st.books cmd args with
+      | some (b', out) => ({ st with books := b' }, out.render)
       | none => (st, "(bad-op)")
     else
       let r :=
